@@ -284,9 +284,45 @@ def bounded(tier, seed):
         if (st == 0) != accept:
             violations.append(dict(key='personality %r request route %r' % (cfg, rq), observed='encapsulation status 0x%x' % st,
                                    required='status 0' if accept else 'a non-zero encapsulation status'))
+    # connected sessions: a small and a Large Forward Open each get the matching reply; requests over the connection get theirs, in order
+    from . import netsim
+    for name, size, req_svc, rpy_svc in (('Forward Open', 500, 0x54, 0xd4), ('Large Forward Open', 4000, 0x5b, 0xdb)):
+        ev += 1
+        distinct.add(('connected', size))
+        bad = None
+        got = []
+        try:
+            with netsim.Server({'A': ('INT', 10), 'B': ('DINT', 4)}) as srv:
+                par = lambda: cpppo.dotdict(size=size, type=2, priority=0, variable=1, redundant=0, RPI=2000000)
+                conn = client.implicit(host='127.0.0.1', port=srv.port, timeout=3.0, O_T=par(), T_O=par(), sender_context=b'c06')
+                try:
+                    if conn.requested.service != req_svc:
+                        bad = 'client issued service 0x%02x for a %d-byte connection' % (conn.requested.service, size)
+                    elif conn.established.service != rpy_svc:
+                        bad = 'request 0x%02x answered by reply service 0x%02x' % (req_svc, conn.established.service)
+                    else:
+                        for opi, (tag, want) in enumerate((('A[1]', [0]), ('B[0]', [0]), ('A[1]', [0]))):
+                            with conn:
+                                rq = conn.read(tag, elements=1, offset=None, timeout=3.0)
+                                rsp, _ = client.await_response(conn, timeout=3.0)
+                            rpy = rsp and rsp.get('enip.CIP.send_data.CPF.item[1].connection_data.request')
+                            if not rpy or rsp.enip.status != 0:
+                                bad = 'no reply to connected Read Tag #%d' % opi
+                                break
+                            got.append((rpy.service, rpy.get('read_tag.data')))
+                            if rpy.service != (rq.service | 0x80) or rpy.get('read_tag.data') != want:
+                                bad = 'connected Read Tag #%d (0x%02x) answered by 0x%02x with %r' % (opi, rq.service, rpy.service, rpy.get('read_tag.data'))
+                                break
+                finally:
+                    conn.close()
+        except Exception as e:
+            bad = 'raised %s: %s' % (type(e).__name__, str(e)[:120])
+        if bad:
+            violations.append(dict(key='%s then connected reads' % name, observed=bad + ' ' + repr(got)[:100],
+                                   required='reply service 0x%02x, then one matching reply per connected request' % rpy_svc))
     return dict(evaluations=ev, distinct_nontrivial=len(distinct), distinct_keys=distinct_keys(distinct),
                 rule='(a) seeded operation lists (valid, out-of-range, wrong type mixed) through the real server over TCP: synchronous vs pipelined '
                      'depth 3/10 vs bundled: one result per operation, same order, same statuses/values; (b) hand-encoded SendRRData frames (reference '
                      'encoder written from the layout tables), N requests written before any reply is read: N replies in order, same sender context, '
-                     'session handle, service | 0x80; Register Session handle != 0; (c) List Services / Identity / Interfaces / Register each followed by a Read Tag: two replies in order; Unregister: no reply, session ends; (d) unroutable requests get a non-zero encapsulation status; distinct = distinct (ops, depth, multiple), N, commands',
+                     'session handle, service | 0x80; Register Session handle != 0; (c) List Services / Identity / Interfaces / Register each followed by a Read Tag: two replies in order; Unregister: no reply, session ends; (d) unroutable requests get a non-zero encapsulation status; (e) connected sessions: a small (500 byte) and a Large (4000 byte) Forward Open each get the matching reply service, three connected Read Tags each get their reply in order; distinct = distinct (ops, depth, multiple), N, commands',
                 exhaustive=False, samples=samples, violations=violations[:20], seed=seed)
